@@ -66,12 +66,53 @@ def call(eng, node, st):
 
 
 def do_contract_call(eng, cc, args, st, node):
+    if getattr(eng, "concrete", False) and not eng.spec_mode:
+        return concrete_call(eng, cc, args, st, node)
     if cc.inline and not eng.spec_mode:
         return inline_call(eng, cc, args, st, node)
     if eng.spec_mode:
         # pure function used inside a spec: result constrained by its ensures
         pass
     return eng.call_contract(cc, args, st, node)
+
+
+def concrete_call(eng, cc, args, st, node):
+    """concrete cross-check run: a callee of the same file is executed, not replaced by its contract"""
+    src, reg = eng.src, eng.reg
+    home = getattr(cc, "proved_in", None)
+    if home is not None:
+        # a contract imported from another contract module: its body is executed in that module's registry and source file
+        import importlib
+        cache = eng.__dict__.setdefault("_other_sources", {})
+        if home not in cache:
+            hreg = importlib.import_module(home).R
+            if hreg.lang != "python":
+                raise Unsupported("concrete run: callee %s lives in a non-Python file" % cc.qualname)
+            from .api import PySource
+            cache[home] = (PySource(hreg.file), hreg)
+        src, reg = cache[home]
+        cc = reg.contracts[cc.qualname]
+    fn = src.functions.get(cc.extra.get("target", cc.qualname))
+    if fn is None:
+        raise Unsupported("concrete run: callee %s not found" % cc.qualname)
+    if cc.extra.get("desugar_comprehensions"):
+        from .engine import desugar_comprehensions
+        fn = desugar_comprehensions(fn)
+    saved_env, saved_fn, saved_contract, saved_src, saved_reg, saved_file = st.env, eng.fn, eng.contract, eng.src, eng.reg, eng.file
+    st.env = {a.arg: v for a, v in zip(fn.args.args, args)}
+    eng.fn, eng.contract, eng.src, eng.reg, eng.file = fn, cc, src, reg, reg.file
+    try:
+        outs = list(eng.exec_block(fn.body, st))
+    finally:
+        eng.fn, eng.contract, eng.src, eng.reg, eng.file = saved_fn, saved_contract, saved_src, saved_reg, saved_file
+    if len(outs) != 1:
+        raise Unsupported("concrete run forked in %s" % cc.qualname)
+    s1, flow = outs[0]
+    s1.env = saved_env
+    if flow[0] == Flow.RAISE:
+        from .engine import ConcreteRaise
+        raise ConcreteRaise("raise", flow[1])
+    return flow[1] if flow[0] == Flow.RETURN else NONE
 
 
 def inline_call(eng, cc, args, st, node):
@@ -187,6 +228,10 @@ def construct(eng, cls, node, st):
             obj = eng.allocate(st, cls)
             if node.keywords:
                 raise Unsupported("keyword arguments in constructor call of %s" % cls)
+            if getattr(eng, "concrete", False):
+                obj = VRef(cls, z3.simplify(obj.ref))
+                concrete_call(eng, cc, [obj] + [eng.eval(a, st) for a in node.args], st, node)
+                return obj
             eng.call_contract(cc, [obj] + [eng.eval(a, st) for a in node.args], st, node)
             return obj
         raise Unsupported("constructor of %s not modelled" % cls)
@@ -288,6 +333,12 @@ def SUM(eng, st, arr, lo, hi):
 
 def b_sum(eng, node, st):
     (v,) = _args(eng, node, st)
+    if getattr(eng, "concrete", False):
+        tot = z3.IntVal(0)
+        for x in eng.concrete_items(v, st):
+            xz = to_z3(x)
+            tot = tot + (z3.If(xz, 1, 0) if xz.sort() == z3.BoolSort() else xz)
+        return z3.simplify(tot)
     if isinstance(v, VGen):
         n, i, c, e = eng.gen_lambda(v, st)
         ez = to_z3(e)
@@ -304,6 +355,8 @@ def b_sum(eng, node, st):
 
 def b_all(eng, node, st):
     (v,) = _args(eng, node, st)
+    if getattr(eng, "concrete", False):
+        return z3.simplify(z3.And(*[as_bool(x) for x in eng.concrete_items(v, st)] + [z3.BoolVal(True)]))
     if isinstance(v, VGen):
         n, i, c, e = eng.gen_lambda(v, st)
         return z3.ForAll([i], z3.Implies(z3.And(i >= 0, i < n, c), as_bool(e)))
@@ -315,6 +368,8 @@ def b_all(eng, node, st):
 
 def b_any(eng, node, st):
     (v,) = _args(eng, node, st)
+    if getattr(eng, "concrete", False):
+        return z3.simplify(z3.Or(*[as_bool(x) for x in eng.concrete_items(v, st)] + [z3.BoolVal(False)]))
     if isinstance(v, VGen):
         n, i, c, e = eng.gen_lambda(v, st)
         return z3.Exists([i], z3.And(i >= 0, i < n, c, as_bool(e)))
@@ -340,6 +395,14 @@ def extremum(eng, node, st, is_max):
             r = z3.If(xz > r, xz, r) if is_max else z3.If(xz < r, xz, r)
         return r
     v = a[0]
+    if getattr(eng, "concrete", False) and not isinstance(v, VTuple):
+        items = eng.concrete_items(v, st)
+        eng.oblige(st, "noexc", z3.BoolVal(len(items) > 0), "ValueError-empty-" + ("max" if is_max else "min"))
+        r = to_z3(items[0])
+        for x in items[1:]:
+            xz = to_z3(x)
+            r = z3.If(xz > r, xz, r) if is_max else z3.If(xz < r, xz, r)
+        return z3.simplify(r)
     if isinstance(v, VGen):
         v = eng.materialize(v, st)
     if isinstance(v, VList):
@@ -420,11 +483,27 @@ def b_tuple(eng, node, st):
     raise Unsupported("tuple()")
 
 
+def concrete_set(eng, items, key=None):
+    key = key or (sort_of(items[0]) if items else INT)
+    dom = z3.K(key.z3sort(), z3.BoolVal(False))
+    uniq = []
+    for x in items:
+        xz = to_z3(x, key)
+        if not z3.is_true(z3.simplify(dom[xz])):
+            uniq.append(x)
+            dom = z3.Store(dom, xz, True)
+    r = VSet(key, dom)
+    r.items = uniq
+    return r
+
+
 def b_set(eng, node, st):
     a = _args(eng, node, st)
     if not a:
         return ("emptyset",)
     v = a[0]
+    if getattr(eng, "concrete", False):
+        return concrete_set(eng, eng.concrete_items(v, st), getattr(v, "key", None) or getattr(v, "elem", None))
     if isinstance(v, VSet):
         return VSet(v.key, v.dom)
     if isinstance(v, VRange) and isinstance(v.step, int) and v.step == 1:
@@ -600,6 +679,9 @@ def method_call(eng, recv, recv_node, name, node, st):
     if isinstance(recv, VSet):
         if name == "add":
             _check_alias(eng, recv_node, st)
+            if getattr(eng, "concrete", False):
+                eng.assign(recv_node, concrete_set(eng, list(getattr(recv, "items", [])) + [args[0]], recv.key), st, True)
+                return NONE
             eng.assign(recv_node, VSet(recv.key, z3.Store(recv.dom, to_z3(args[0], recv.key), True)), st, True)
             return NONE
         if name == "clear" and not args:
@@ -707,6 +789,9 @@ def _check_alias(eng, recv_node, st):
 def str_join(eng, sep, arg, st):
     """sep.join(gen) for sep == '' and single-character pieces: the result is the sequence of pieces."""
     seplen = z3.simplify(sep.len)
+    if getattr(eng, "concrete", False):
+        from .crosscheck import to_py
+        return eng.str_const(to_py(eng, st, sep).join(to_py(eng, st, x) for x in eng.concrete_items(arg, st)))
     if not (z3.is_int_value(seplen) and seplen.as_long() == 0):
         raise Unsupported("join with non-empty separator")
     if isinstance(arg, VGen):
